@@ -45,14 +45,18 @@ impl InferShapes for Expand {
             // must have the same size in the output. Symbolic dimensions in the
             // input and dimensions of size 1 may broadcast.
             let data_dims: Vec<_> = data_dims.collect();
-            let pad_dims = shape_len.saturating_sub(data_dims.len() as i32);
-            let expanded_dims = data_dims.len().max(shape_len as usize) as i32;
+            let shape_len = shape_len.max(0) as usize;
+
+            // Number of dimensions added at the front if the target shape has
+            // more dimensions than the input. This is zero otherwise.
+            let pad_dims = shape_len.saturating_sub(data_dims.len());
+            let expanded_dims = data_dims.len().max(shape_len);
             let out_dims = (0..expanded_dims)
                 .map(|i| {
                     if i < pad_dims {
                         sym_gen.gen_positive()
                     } else {
-                        match data_dims[(i - pad_dims) as usize] {
+                        match data_dims[i - pad_dims] {
                             SymExpr::Value(size) if size > 1 => SymExpr::Value(size),
                             _ => sym_gen.gen_positive(),
                         }
